@@ -20,13 +20,19 @@ pub struct Case {
     pub seed: u32,
     /// number of (leaf, edit) perturbations of the ZKPoK to try; 0 = all
     pub leaf_edits: usize,
+    /// the issuer has published this many more bases than the credential has attributes
+    #[serde(default)]
+    pub spare: u8,
+    /// explicit hidden positions (overrides hidden_mask; for attribute counts above 8)
+    #[serde(default)]
+    pub hidden_list: Vec<usize>,
 }
 
 fn strat(nmax: usize, leaf_edits: usize) -> impl Strategy<Value = Case> {
-    (any::<u16>(), 1usize..=nmax, 1u8..=31, prop::bool::weighted(0.3), prop::collection::vec(0u8..6, 5), any::<u32>())
-        .prop_map(move |(key, n, hm, trusted, classes, seed)| {
+    (any::<u16>(), 1usize..=nmax, 1u8..=31, prop::bool::weighted(0.3), prop::collection::vec(0u8..6, 5), any::<u32>(), prop::sample::select(vec![0u8, 0, 0, 1, 2, 3]))
+        .prop_map(move |(key, n, hm, trusted, classes, seed, spare)| {
             let mask = (hm as usize % ((1 << n) - 1)) as u8 + 1; // 1 ..= 2^n - 1
-            Case { key, n, hidden_mask: mask, trusted, classes, seed, leaf_edits }
+            Case { key, n, hidden_mask: mask, trusted, classes, seed, leaf_edits, spare, hidden_list: vec![] }
         })
 }
 
@@ -54,6 +60,26 @@ where
     catch(|| BlindSignature::<CL03<CS>>::blind_sign(&key.pk, &key.sk, bases, zk, Some(revealed), c, ct, cpk, hidden, Some(revealed_idx))).ok()
 }
 
+/// another set of hidden positions of the same size (first differing candidate in a cheap enumeration)
+fn other_set_same_size(n: usize, hidden: &[usize]) -> Option<Vec<usize>> {
+    if n <= 10 {
+        return subsets(n).into_iter().find(|o| o.len() == hidden.len() && o != hidden);
+    }
+    // large n: move one hidden position to the next free position
+    for (k, &h) in hidden.iter().enumerate() {
+        for d in 1..n {
+            let cand = (h + d) % n;
+            if !hidden.contains(&cand) {
+                let mut o = hidden.to_vec();
+                o[k] = cand;
+                o.sort();
+                return Some(o);
+            }
+        }
+    }
+    None
+}
+
 fn check_one<CS: CLCiphersuite>(rep: &Report, ck: &str, c: &Case, cx: &Ctxt) -> CheckResult
 where
     CS::HashAlg: digest::Digest,
@@ -61,11 +87,11 @@ where
     let key = &cx.keys[pick(c.key, cx.keys.len())];
     let pk = &key.pk;
     let n = c.n;
-    let hidden: Vec<usize> = (0..n).filter(|i| c.hidden_mask >> i & 1 == 1).collect();
+    let hidden: Vec<usize> = if c.hidden_list.is_empty() { (0..n.min(8)).filter(|i| c.hidden_mask >> i & 1 == 1).collect() } else { c.hidden_list.clone() };
     let revealed_idx: Vec<usize> = (0..n).filter(|i| !hidden.contains(i)).collect();
     let cj = |d: Value| json!({"case": c, "key": key.id, "hidden": hidden, "detail": d});
     let mut st = (c.seed as u64) << 6 | 1;
-    let bases = Bases::generate(pk, n);
+    let bases = Bases::generate(pk, n + c.spare as usize);
     let vals: Vec<Integer> = (0..n).map(|i| attr(c.classes[i % c.classes.len()], &mut st)).collect();
     let msgs: Vec<CL03Message> = vals.iter().cloned().map(CL03Message::new).collect();
     let revealed: Vec<CL03Message> = revealed_idx.iter().map(|&i| msgs[i].clone()).collect();
@@ -153,11 +179,8 @@ where
         gate("commitment-times-b", &zk, &shifted, t_issuer.as_ref(), key, &bases, cpk, &hidden, "C * b".into())?;
     }
     // another hidden set of the same size
-    for other in subsets(n) {
-        if other.len() == hidden.len() && other != hidden {
-            gate("other-hidden-set", &zk, &c_issuer, t_issuer.as_ref(), key, &bases, cpk, &other, format!("{:?} instead of {:?}", other, hidden))?;
-            break;
-        }
+    if let Some(other) = other_set_same_size(n, &hidden) {
+        gate("other-hidden-set", &zk, &c_issuer, t_issuer.as_ref(), key, &bases, cpk, &other, format!("{:?} instead of {:?}", other, hidden))?;
     }
     // hidden-position lists that reach beyond the attribute count (after a valid position, before it, alone): the
     // request must be refused, and a refusal must leave nothing behind - the honest proof is verified again on
@@ -190,7 +213,7 @@ where
         rep.class("trusted-commitment");
     }
     // mode mismatch: a proof made without the trusted-party sub-proof presented to an issuer that requires one
-    if let Some(t) = tp {
+    if let Some(t) = tp.filter(|t| hidden.iter().all(|&i| i < t.g_bases.len())) {
         let (z_plain, tc) = if use_tp {
             (catch(|| ZKPoK::<CL03<CS>>::generate_proof(&msgs, &cc, None, pk, &bases, None, &hidden)).ok(), t_issuer.clone())
         } else {
@@ -304,7 +327,7 @@ pub fn run(ctx: &Ctx, rep: &Report) -> Meta {
     for n in 1..=nmax {
         for mask in 1u8..(1 << n) {
             k += 1;
-            fixed.push(Case { key: (k * 9973) as u16, n, hidden_mask: mask, trusted: k % 3 == 0, classes: vec![5, 4, 5, (k % 6) as u8, 5], seed: (ctx.seed as u32).wrapping_add(k), leaf_edits: ctx.tier.pick(16, 0) });
+            fixed.push(Case { key: (k * 9973) as u16, n, hidden_mask: mask, trusted: k % 3 == 0, classes: vec![5, 4, 5, (k % 6) as u8, 5], seed: (ctx.seed as u32).wrapping_add(k), leaf_edits: ctx.tier.pick(16, 0), spare: if k % 4 == 1 { 1 + (k % 3) as u8 } else { 0 }, hidden_list: vec![] });
         }
     }
     for n in [6usize, 8] {
@@ -322,6 +345,11 @@ pub fn run(ctx: &Ctx, rep: &Report) -> Meta {
     if !rep.aborted() {
         rep.exhaustive(format!("every non-empty hidden set for n = 1..={}", nmax));
     }
+    // every attribute count 9..=24 (quick) / 9..=48 (thorough) with two or three hidden positions including the last
+    let sweep: Vec<Case> = (9..=ctx.tier.pick(24usize, 48usize))
+        .map(|n| Case { key: (n * 131) as u16, n, hidden_mask: 0, trusted: false, classes: vec![5, 4, 5, (n % 6) as u8, 5], seed: (ctx.seed as u32).wrapping_add(7000 + n as u32), leaf_edits: 8, spare: (n % 3) as u8, hidden_list: if n % 2 == 0 { vec![0, n - 1] } else { vec![1, n / 2, n - 1] } })
+        .collect();
+    par_items(ctx, rep, "attribute-count-sweep", &sweep, |c| with_cl!(suite, CS => check_one::<CS>(rep, "attribute-count-sweep", c, &cx)));
     let le = ctx.tier.pick(24usize, 80usize);
     run_cases(ctx, rep, "issuance", ctx.tier.pick(40, 300), 30, || strat(nmax.max(4), le), |c| with_cl!(suite, CS => check_one::<CS>(rep, "issuance", c, &cx)));
     if ctx.tier == Tier::Thorough && !rep.aborted() {
@@ -340,7 +368,7 @@ pub fn run(ctx: &Ctx, rep: &Report) -> Meta {
                positive: verify_proof true (the issuer is given the commitment value only), proof survives JSON, blind_sign returns, the unblinded signature verifies on the full vector, re-issuing with a changed revealed attribute verifies on the new vector and not on the old; \
                negative: commitment to other attributes / C*b, another hidden set of the same size, hidden-position lists reaching beyond the attribute count (each refusal followed by a re-verification of the honest proof on the same thread), other bases, other issuer key, wrong trusted commitment: verify_proof false AND blind_sign refuses; \
                every integer leaf of the serialised proof perturbed by +1, -1, := 0, := sibling, one high bit flipped, +2^k for k in {128, 160, 256, 300} (16-24 sampled perturbations per proof in quick, all in thorough's fixed list): verify_proof false; every composite node of the serialised proof (sub-proof, array, array element) replaced by the node at the same path of a second honest proof for other hidden values (same key, bases, positions), for every second case: verify_proof false; \
-               n = 6 and 8 with first / last / all / alternating hidden sets; a proof without the trusted-party sub-proof presented to an issuer that requires one, a sub-proof checked against another commitment key; non-trivial = hidden set != {0} (the crate's only tested configuration); evaluations = verifier / issuer decisions"
+               n = 6 and 8 with first / last / all / alternating hidden sets; every attribute count 9..=24 (quick) / 9..=48 (thorough) with two or three hidden positions including the last; issuers with 0..3 more bases than attributes; a proof without the trusted-party sub-proof presented to an issuer that requires one, a sub-proof checked against another commitment key; non-trivial = hidden set != {0} (the crate's only tested configuration); evaluations = verifier / issuer decisions"
             .into(),
         assumptions: vec!["blind_sign refuses by panicking (by design): observed under catch_unwind".into(), "CL2048/CL3072 in thorough only (fixture primes)".into()],
     }
